@@ -522,6 +522,51 @@ class Machine(RuleBasedStateMachine):
         self.add_formula(e, key, rnd, "mixed")
         self.run.cls("rule:rebuild")
 
+    @rule(rnd=st.randoms(use_true_random=True), e=st.integers(0, 2))
+    def derived(self, rnd, e):
+        """A derived constructor applied to formulas that exist already is the very object of its documented expansion."""
+        name = sorted(DERIVED)[rnd.randrange(len(DERIVED))]
+        kind, n, build, expand = DERIVED[name]
+        by_type = {}
+        for key in self.model[e]:
+            try:
+                t = reftype(key)
+            except IllTyped:
+                continue
+            if not is_fun(t):
+                by_type.setdefault(t, []).append(key)
+        ok = lambda t: (kind == "any" or (kind == "bv" and isinstance(t, tuple) and t[0] == "BV")
+                        or (kind == "num" and t in (INT, REAL)) or (kind == "bool" and t == BOOL)
+                        or (kind == "nonbool" and t != BOOL))
+        types = sorted((t for t in by_type if ok(t)), key=repr)
+        if not types:
+            return
+        t = types[rnd.randrange(len(types))]
+        pool = by_type[t]
+        keys = [pool[rnd.randrange(len(pool))] for _ in range(n)]
+        if name.startswith("AllDifferent") and len(set(keys)) < len(keys):
+            return   # x != x is built as it stands, but nothing is documented about repeated operands
+        env = self.envs[e]
+        case = {"constructor": name, "operands": keys}
+        with env:
+            try:
+                obj = build(env.formula_manager, [self.model[e][k] for k in keys])
+            except Exception as ex:
+                self.run.discard("derived-rejected:%s" % type(ex).__name__)
+                return
+            want = norm(expand(keys))
+            memo = {}
+            got = canon_arr(pys.decode(obj, memo))
+        self.run.cls("rule:derived")
+        self.run.cls("derived:" + name.split(":")[0].split("-")[0])
+        self.run.case(key=("derived", name, tuple(keys)), nontrivial=True)
+        if got != canon_arr(want):
+            self.fail("derived-constructor", case, "%s over %s is %s, documented as %s" % (
+                name, [show(k, 60) for k in keys], show(got, 200), show(want, 200)), constructor=name.split(":")[0])
+            return
+        for node, nb in memo.items():
+            self.register(e, canon_arr(nb), node, "derived:" + name)
+
     @rule(rnd=st.randoms(use_true_random=True), src=st.integers(0, 1))
     def normalize(self, rnd, src):
         if not self.model[src]:
@@ -591,6 +636,51 @@ class Machine(RuleBasedStateMachine):
                 self.fail("copy-not-stable", case, "normalizing %s twice gives two objects" % show(key))
 
 
+def _fold(op, items):
+    acc = items[0]
+    for x in items[1:]:
+        acc = (op, (), (acc, x))
+    return acc
+
+
+def _eq_or_iff(a, b):
+    return ("IFF" if reftype(a) == BOOL else "EQUALS", (), (a, b))
+
+
+def _not(a):
+    return ("NOT", (), (a,))
+
+
+def derived_table():
+    """name -> (operand kinds, number of operands, builder on the manager, documented expansion on blueprints).
+    Expansions are the ones the docstrings of pysmt/formula.py give."""
+    T = {}
+    for n in range(1, 7):
+        T["BVRepeat:%d" % n] = ("bv", 1, lambda m, a, n=n: m.BVRepeat(a[0], n), lambda k, n=n: _fold("BV_CONCAT", [k[0]] * n))
+        T["BVRepeat-method:%d" % n] = ("bv", 1, lambda m, a, n=n: a[0].BVRepeat(n), lambda k, n=n: _fold("BV_CONCAT", [k[0]] * n))
+    T["BVNand"] = ("bv", 2, lambda m, a: m.BVNand(*a), lambda k: ("BV_NOT", (), (("BV_AND", (), tuple(k)),)))
+    T["BVNor"] = ("bv", 2, lambda m, a: m.BVNor(*a), lambda k: ("BV_NOT", (), (("BV_OR", (), tuple(k)),)))
+    T["BVXnor"] = ("bv", 2, lambda m, a: m.BVXnor(*a), lambda k: ("BV_NOT", (), (("BV_XOR", (), tuple(k)),)))
+    for nm, o in (("BVUGT", "BV_ULT"), ("BVUGE", "BV_ULE"), ("BVSGT", "BV_SLT"), ("BVSGE", "BV_SLE")):
+        T[nm] = ("bv", 2, lambda m, a, nm=nm: getattr(m, nm)(*a), lambda k, o=o: (o, (), (k[1], k[0])))
+    for nm, o in (("GT", "LT"), ("GE", "LE")):
+        T[nm] = ("num", 2, lambda m, a, nm=nm: getattr(m, nm)(*a), lambda k, o=o: (o, (), (k[1], k[0])))
+    T["Xor"] = ("bool", 2, lambda m, a: m.Xor(*a), lambda k: _not(("IFF", (), tuple(k))))
+    T["NotEquals"] = ("nonbool", 2, lambda m, a: m.NotEquals(*a), lambda k: _not(("EQUALS", (), tuple(k))))
+    for n in (2, 3, 4):
+        T["AllDifferent:%d" % n] = ("any", n, lambda m, a: m.AllDifferent(a), lambda k: (
+            "AND", (), tuple(_not(_eq_or_iff(k[i], k[j])) for i in range(len(k)) for j in range(i + 1, len(k)))))
+        amo = lambda k: ("AND", (), tuple(("IMPLIES", (), (k[i], _not(("OR", (), tuple(k[i + 1:]))))) for i in range(len(k) - 1)))
+        T["AtMostOne:%d" % n] = ("bool", n, lambda m, a: m.AtMostOne(*a), amo)
+        T["ExactlyOne:%d" % n] = ("bool", n, lambda m, a: m.ExactlyOne(a), lambda k, amo=amo: ("AND", (), (("OR", (), tuple(k)), amo(k))))
+    T["Min"] = ("num", 2, lambda m, a: m.Min(*a), lambda k: ("ITE", (), (("LE", (), (k[0], k[1])), k[0], k[1])))
+    T["Max"] = ("num", 2, lambda m, a: m.Max(*a), lambda k: ("ITE", (), (("LE", (), (k[0], k[1])), k[1], k[0])))
+    return T
+
+
+DERIVED = derived_table()
+
+
 def shard(shard, seed, n, steps, shrink=False):
     run = Run(PID)
 
@@ -615,6 +705,8 @@ def main():
     chk.floor("reached-existing-key", 2000)
     chk.floor("rule:normalize", 300)
     chk.floor("rule:rebuild", 300)
+    chk.floor("rule:derived", 300)
+    chk.floor("derived:BVRepeat", 20)
     return chk.finish()
 
 
